@@ -5,6 +5,7 @@ import os
 
 from hypothesis import strategies as st
 
+from vf.ref import tables as T
 from vf import common, drive, persist
 from vf.common import Violation
 from vf.ref import codec
@@ -128,7 +129,10 @@ def sub_cases(draw):
         for nid in draw(st.lists(st.sampled_from(pool), min_size=0, max_size=3, unique=True)):
             lines.append(f"{nid};255;0;0;17;2.0")
             for cid in draw(st.lists(st.integers(0, 4), min_size=0, max_size=3, unique=True)):
-                lines.append(f"{nid};{cid};0;0;{draw(st.integers(0, 25))};d")
+                # every presentation type of the version - also the two node types presented on an ordinary child
+                # (their payload has to be a version string)
+                sub = draw(st.one_of(st.integers(0, T.MAX_SUB[version][T.PRESENTATION]), st.sampled_from([17, 18])))
+                lines.append(f"{nid};{cid};0;0;{sub};{'2.0' if sub in (17, 18) else 'd'}")
         return lines
 
     return {
